@@ -452,6 +452,35 @@ func SolveAll(obs []*Obligation, dir string, timeoutS, workers int) {
 	}
 	close(ch)
 	wg.Wait()
+	// Escalation: what is still undecided is tried once more, two at a time, with twelve
+	// times the limit.  On a loaded or slow machine a proof that needs a few seconds
+	// otherwise runs into the limit; a handful of such obligations is load, many are a
+	// real failure (and are reported without further waiting).
+	var open []*Obligation
+	for _, o := range obs {
+		if o.expect() == "unsat" && o.Result != "sat" && o.Result != "unsat" && o.Result != "too-large" && !strings.HasPrefix(o.Result, "not attempted") {
+			open = append(open, o)
+		}
+	}
+	if len(open) == 0 || len(open) > 16 {
+		return
+	}
+	ch2 := make(chan *Obligation)
+	var wg2 sync.WaitGroup
+	for i := 0; i < 2; i++ {
+		wg2.Add(1)
+		go func() {
+			defer wg2.Done()
+			for o := range ch2 {
+				solveWith(o, dir, timeoutS*12, true, 34)
+			}
+		}()
+	}
+	for _, o := range open {
+		ch2 <- o
+	}
+	close(ch2)
+	wg2.Wait()
 }
 
 func (o *Obligation) expect() string {
